@@ -54,18 +54,27 @@ Inductive berr :=
 (* how the call fn(ctx, tx) ended *)
 Inductive bout := BNil | BErr (b : berr) | BPanic.
 
+(* the context handed to TransactCtx *)
+Inductive ctxst :=
+| CLive             (* never cancelled *)
+| CDead             (* already cancelled when TransactCtx is called *)
+| CAt (k : Z).      (* cancelled by the body just before its k-th statement (k = number of
+                       statements: after the last one, before the body returns) *)
+
 Record input := mkInput
   { ibrk : bool;          (* the breaker lets the call through *)
     ibegin : bool;        (* driver Begin succeeds *)
     istmts : list stmt;
     ifin : fin;
     icommit : bool;       (* driver Commit succeeds *)
-    irollback : bool }.   (* driver Rollback succeeds *)
+    irollback : bool;     (* driver Rollback succeeds *)
+    ictx : ctxst }.
 
 (* ---- errors returned to the caller -------------------------------------- *)
 Inductive err :=
 | ENil
 | EUnavailable                 (* breaker.ErrServiceUnavailable *)
+| ECanceled                    (* ctx.Err() of an already cancelled context *)
 | EBegin                       (* the driver's Begin error *)
 | EBody (b : berr)             (* exactly the error value the body returned *)
 | ECommit                      (* the driver's Commit error *)
@@ -97,6 +106,25 @@ Fixpoint run_body (k : Z) (ss : list stmt) (f : fin) : list logent * bout :=
       end
     end
   end.
+
+(* ---- the context ------------------------------------------------------------
+   go-zero begins with db.Begin() (context.Background()), so the transaction is NOT bound
+   to the caller's context: cancelling it neither rolls the transaction back nor affects
+   Begin / Commit / Rollback.  Its only effects are (a) breaker.DoWithAcceptableCtx
+   returns ctx.Err() at once if it is already done, and (b) statements the body issues
+   with it are refused by database/sql before they reach the driver. *)
+Definition is_dead (c : ctxst) : bool := match c with CDead => true | _ => false end.
+Definition ctx_covers (c : ctxst) (k : Z) : bool :=
+  match c with CLive => false | CDead => true | CAt j => j <=? k end.
+
+Fixpoint apply_ctx (c : ctxst) (k : Z) (ss : list stmt) : list stmt :=
+  match ss with
+  | [] => []
+  | s :: ss' => (if ctx_covers c k then mkStmt SCtx (sonfail s) else s) :: apply_ctx c (k + 1) ss'
+  end.
+
+(* the statements as database/sql treats them *)
+Definition estmts (i : input) : list stmt := apply_ctx (ictx i) 0 (istmts i).
 
 (* ---- the deferred function of transactOnConn ------------------------------
      defer func() {
@@ -133,7 +161,7 @@ Record result := mkResult
 (* transactOnConn: tx, err = b(conn); if err != nil { return }; defer ...; return fn(ctx, tx) *)
 Definition transact_on_conn (i : input) : result :=
   if ibegin i then
-    let '(bl, o) := run_body 0 (istmts i) (ifin i) in
+    let '(bl, o) := run_body 0 (estmts i) (ifin i) in
     let '(dl, e) := deferred i o in
     mkResult ((CBegin, true) :: bl ++ dl) 1 (Some o) e
   else mkResult [(CBegin, false)] 0 None EBegin.
@@ -141,8 +169,12 @@ Definition transact_on_conn (i : input) : result :=
 (* TransactCtx: db.brk.DoWithAcceptableCtx(ctx, func() error { return transact(...) }, ...) ;
    transact: conn, err := db.connProv() (cannot fail for NewSqlConnFromDB) *)
 Definition transact (i : input) : result :=
-  if ibrk i then transact_on_conn i
+  if is_dead (ictx i) then mkResult [] 0 None ECanceled      (* select { case <-ctx.Done(): return ctx.Err() *)
+  else if ibrk i then transact_on_conn i
   else mkResult [] 0 None EUnavailable.
+
+(* the call gets past the context check and the breaker *)
+Definition let_through (i : input) : bool := negb (is_dead (ictx i)) && ibrk i.
 
 (* ---- readable predicates over results -------------------------------------- *)
 Definition is_end (c : call) : bool :=
